@@ -9,6 +9,8 @@ REPO="${2:-${VERIF_REPO:-/repo}}"
 # builds of a scratch copy of the repository (VERIF_REPO != /repo) get their own directory
 SUF=""
 if [ "$REPO" != "/repo" ]; then SUF="-$(echo -n "$REPO" | md5sum | cut -c1-8)"; fi
+# VERIF_COV_TAG gives concurrent coverage measurements their own instrumented build (the counters live in the build directory)
+if [ "$FLAV" = cov ] && [ -n "${VERIF_COV_TAG:-}" ]; then SUF="$SUF-$VERIF_COV_TAG"; fi
 BDIR="$HERE/.build/$FLAV$SUF"
 mkdir -p "$HERE/.build"
 case "$FLAV" in
